@@ -77,6 +77,7 @@ func applyDefaults() {
 			pd.Profile.MaxOpenQ = 2
 		}
 		pd.Opt.Events = true
+		pd.Opt.Inspect = true // every profile looks at the world (reads, queries) from inside observer callbacks
 	}
 }
 
